@@ -656,4 +656,12 @@ def run(repo, rep, tier):
     if i.rule == 'R2/index-install':
       i.rule = 'R1e/index-install'
       rep.instances.append(i)
+  # a geo that may not be excluded must not be dropped silently when it is missing from the data (C15.R2)
+  from mmsa.props import c15
+  sub = type(rep)(rep.prop, rep.tier, rep.repo)
+  c15.r1_r2_init(repo, sub)
+  for i in sub.instances:
+    if i.rule == 'R2/reconciliation':
+      i.rule = 'R4/reconciliation'
+      rep.instances.append(i)
   rep.assume('the eligibility table has no all-zero row and distinct IDs (C16); cardinalities are abstracted')
